@@ -23,6 +23,7 @@ type Strategy struct {
 	Impersonate bool    // S7: votes in the name of other members with junk signatures, delivered twice
 	FastLinks   bool    // adversary-to-honest links are not subject to the scheduler latency class
 	SuppTwist   bool    // S8: own votes signed over supplemental data with other commitments (same power-table CID) or another power-table CID
+	Solo        bool    // C07 part "solo": the adversary object plays the whole virtual network around one real participant (solo.go)
 	Disciplined bool    // never leak a camp\'s value to the other camp: follow-ups only towards the camp that voted for the value; no replays
 	ActProb     float64 // probability to act on an opportunity
 	MaxSends    int
@@ -72,6 +73,7 @@ type Adversary struct {
 	Sent, accepted, rejected int
 	PerTemplate              map[string]int
 	signer                   gpbft.Signer
+	solo                     *solo // non-nil in solo mode only (Strategy.Solo)
 }
 
 func newAdversary(w *World) *Adversary {
@@ -87,6 +89,9 @@ func newAdversary(w *World) *Adversary {
 		}
 	}
 	a.signer = w.Sc.Sig().NewSigner(keys...)
+	if a.st.Solo {
+		a.solo = newSolo(a)
+	}
 	return a
 }
 
@@ -98,6 +103,10 @@ func (a *Adversary) silentNow() bool {
 }
 
 func (a *Adversary) start() {
+	if a.solo != nil {
+		a.solo.start()
+		return
+	}
 	if len(a.own) == 0 {
 		return
 	}
@@ -118,6 +127,10 @@ func (a *Adversary) addValue(inst uint64, c *gpbft.ECChain) {
 
 // observe is called for every message put on the network (full-information adversary).
 func (a *Adversary) observe(from int, msg *gpbft.GMessage) {
+	if a.solo != nil {
+		a.solo.observe(from, msg)
+		return
+	}
 	v := msg.Vote
 	key := v.Value.Key()
 	pk := poolKey{v.Instance, v.Round, v.Phase, key}
@@ -638,6 +651,10 @@ func (a *Adversary) followUps(mi int, inst, round uint64, delay time.Duration) {
 }
 
 func (a *Adversary) tick() {
+	if a.solo != nil {
+		a.solo.tick()
+		return
+	}
 	if a.silentNow() || a.Sent >= a.st.MaxSends {
 		return
 	}
